@@ -37,13 +37,15 @@ def _op(op):
     return abs(op[0]), abs(op[1]), min(abs(op[2]), 64)
 
 
-def build(case, stop_after=None):
-    """Build LSMTree + recording WAL + workers for `case`, run (optionally stopping after k events)."""
-    from happysimulator.components.storage.lsm_tree import (_TOMBSTONE, FIFOCompaction, LeveledCompaction, LSMTree,
-                                                             SizeTieredCompaction)
-    from happysimulator.components.storage.wal import SyncEveryWrite, SyncOnBatch, SyncPeriodic, WriteAheadLog
-    cfg = case.get("cfg") if isinstance(case.get("cfg"), dict) else {}
-    g = lambda k, d=0: abs(_i(cfg.get(k), d))
+_RECWAL = []
+
+
+def _rec_wal_class():
+    """Recording WriteAheadLog subclass (defined once, lazily)."""
+    if _RECWAL:
+        return _RECWAL[0]
+    from happysimulator.components.storage.lsm_tree import _TOMBSTONE
+    from happysimulator.components.storage.wal import WriteAheadLog
 
     class RecWAL(WriteAheadLog):
         """harness-side subclass: logs (seq, key, value) at append and every truncate bound; behaviour unchanged"""
@@ -76,6 +78,19 @@ def build(case, stop_after=None):
                         self.unsafe.add(s_)
             return super().truncate(up_to_sequence)
 
+    _RECWAL.append(RecWAL)
+    return RecWAL
+
+
+def build(case, stop_after=None):
+    """Build LSMTree + recording WAL + workers for `case`, run (optionally stopping after k events)."""
+    from happysimulator.components.storage.lsm_tree import (_TOMBSTONE, FIFOCompaction, LeveledCompaction, LSMTree,
+                                                             SizeTieredCompaction)
+    from happysimulator.components.storage.wal import SyncEveryWrite, SyncOnBatch, SyncPeriodic, WriteAheadLog
+    cfg = case.get("cfg") if isinstance(case.get("cfg"), dict) else {}
+    g = lambda k, d=0: abs(_i(cfg.get(k), d))
+
+    RecWAL = _rec_wal_class()
     pol_i = g("sync") % 3
     pol = [SyncEveryWrite(), SyncOnBatch(2 + g("batch") % 3), SyncPeriodic(ticks(1 + g("period") % 6))][pol_i]
     wal = RecWAL("wal", sync_policy=pol, write_latency=ticks(1 + g("ww") % 4) / 4, sync_latency=ticks(1 + g("ws") % 6) / 2)
@@ -258,10 +273,10 @@ _RULE = ("writers doing put/delete over 2-5 keys on LSMTree(memtable 1-4, 2-4 le
          "of a case is in Result.observed['crash_points'] and bucketed in its label crash-points:<bucket>); ")
 
 OBLIGATIONS = [
-    Obligation("crash", strategy(False), execute_factory("crash"), {"quick": 360, "thorough": 8000},
+    Obligation("crash", strategy(False), execute_factory("crash"), {"quick": 220, "thorough": 8000},
                _RULE + "2-4 concurrent writers with generated start offsets; non-trivial = at least one crash point at which a flush or "
                "compaction generator is suspended", case_timeout={"quick": 60.0, "thorough": 180.0}),
-    Obligation("crash-single-writer", strategy(True), execute_factory("crash-single-writer"), {"quick": 180, "thorough": 4000},
+    Obligation("crash-single-writer", strategy(True), execute_factory("crash-single-writer"), {"quick": 110, "thorough": 4000},
                _RULE + "one writer (restricted domain: flushes and compactions run inside the put that triggers them, so no WAL entry "
                "of a newer memtable exists when the log is truncated and no two compactions overlap); same non-trivial rule",
                case_timeout={"quick": 60.0, "thorough": 180.0}),
